@@ -140,7 +140,7 @@ impl OExec {
                 if auth.is_fault() {
                     ctx.count(&format!("F7.{}.{}", func, auth.name()));
                 }
-                let (entries, ok) = match resolve_auth(*auth, &c) {
+                let (entries, ok) = match resolve_auth(&mut self.sim, *auth, &c) {
                     None => (vec![], false),
                     Some((w, oth)) => (vec![AuthEntry { who: self.p[w].clone(), root: AuthNode::new(&oc, func, if oth { alt } else { args.clone() }) }], w == o && !oth),
                 };
@@ -192,7 +192,7 @@ impl OExec {
                 if auth.is_fault() {
                     ctx.count(&format!("F7.transfer_ownership.{}", auth.name()));
                 }
-                let (entries, ok) = match resolve_auth(*auth, &c) {
+                let (entries, ok) = match resolve_auth(&mut self.sim, *auth, &c) {
                     None => (vec![], false),
                     Some((w, oth)) => (vec![AuthEntry { who: self.p[w].clone(), root: AuthNode::new(&oc, "transfer_ownership", if oth { alt } else { args.clone() }) }], w == o && !oth),
                 };
@@ -258,7 +258,7 @@ impl OExec {
                 if auth.is_fault() {
                     ctx.count(&format!("F7.execute.{}", auth.name()));
                 }
-                let (entries, auth_ok) = match resolve_auth(*auth, &c) {
+                let (entries, auth_ok) = match resolve_auth(&mut self.sim, *auth, &c) {
                     None => (vec![], false),
                     Some((w, oth)) => {
                         let same = matches!(target, Target::Noop) && oth;
@@ -445,6 +445,7 @@ impl World for WorldO {
                 break;
             }
             ctx.step = i;
+            ex.sim.permissive_next = false;
             let eff = match op {
                 OOp::Resubmit { k } => {
                     if ex.history.is_empty() {
